@@ -215,7 +215,12 @@ def check_case(case) -> Obs:
     R, C, seed, mode = case["rows"], case["cols"], case["seed"], case["mode"]
     obs.cls("mode:" + mode)
     np.random.seed(12345)
+    # other randomizers of other plates/seeds live in the same process, created before and after the one under test
+    other_a = robotools.WellRandomizer((min(R + 1, 26), C + 2), seed + 1, mode=mode)
     rnd = robotools.WellRandomizer((R, C), seed, mode=mode)
+    other_b = robotools.WellRandomizer((max(1, R - 1), C), seed + 7, mode=mode)
+    other_b.randomize_wells([wid(0, 0)])
+    other_a.derandomize_wells([wid(0, 0)])
     np.random.seed(999)
     np.random.rand(7)
     rnd2 = robotools.WellRandomizer((R, C), seed, mode=mode)
